@@ -70,10 +70,11 @@ theorem init_ready_only_last :
 /-- Every path a thread-level function builds contains `thread.%d` (the two
     files of the model are `…/thread.<tid>/stream.obs` and
     `…/thread.<tid>/stream.json`, formatted with `rthread.tid`): FS
-    operations of different threads go to different paths. -/
+    operations of different threads go to different paths.  A pure join of
+    already built paths (`"%s/%s"`) adds no literal component and is neutral. -/
 theorem thread_paths_contain_tid :
     (∀ r ∈ Ovni.Generated.Footprint.pathFormats, r.1 ∉ procLevelPathFns →
-        hasInfix tidPattern r.2.2 = true) ∧
+        (hasInfix tidPattern r.2.2 || pureJoin r.2.2) = true) ∧
     ("create_trace_stream", "%s/thread.%d/stream.obs") ∈ Ovni.Generated.Footprint.pathFormats.map (fun r => (r.1, r.2.1)) ∧
     ("thread_metadata_store", "%s/thread.%d/stream.json") ∈ Ovni.Generated.Footprint.pathFormats.map (fun r => (r.1, r.2.1)) := by
   decide
